@@ -143,6 +143,7 @@ type app struct {
 	setups []api.ShipConnectionDataWriterInterface
 	rx     map[string]api.ShipConnectionDataWriterInterface // payload marker -> receiving connection
 	nDisc  int
+	deny   bool // AllowWaitingForTrust answers false: a request of an untrusted peer is aborted at once
 }
 
 type rdr struct {
@@ -179,7 +180,7 @@ func (a *app) SetupRemoteDevice(ski string, w api.ShipConnectionDataWriterInterf
 func (a *app) VisibleRemoteServicesUpdated([]api.RemoteService)              {}
 func (a *app) ServiceShipIDUpdate(string, string)                            {}
 func (a *app) ServicePairingDetailUpdate(string, *api.ConnectionStateDetail) {}
-func (a *app) AllowWaitingForTrust(string) bool                              { return true }
+func (a *app) AllowWaitingForTrust(string) bool                              { return !a.deny }
 func (a *app) received(marker string) (api.ShipConnectionDataWriterInterface, bool) {
 	a.mu.Lock()
 	defer a.mu.Unlock()
@@ -297,6 +298,21 @@ func (s *side) start() {
 	s.hub.Start()
 	s.px.target.Store(int64(port))
 	// the listener is started on a goroutine by the hub: wait until it accepts
+	deadline := time.Now().Add(5 * time.Second)
+	for time.Now().Before(deadline) {
+		c, err := net.DialTimeout("tcp", fmt.Sprintf("127.0.0.1:%d", port), 200*time.Millisecond)
+		if err == nil {
+			_ = c.Close()
+			return
+		}
+		time.Sleep(5 * time.Millisecond)
+	}
+}
+
+// Start of the SAME hub object after a Shutdown (the library's own restart)
+func (s *side) restartSame() {
+	s.hub.Start()
+	port := int(s.px.target.Load())
 	deadline := time.Now().Add(5 * time.Second)
 	for time.Now().Before(deadline) {
 		c, err := net.DialTimeout("tcp", fmt.Sprintf("127.0.0.1:%d", port), 200*time.Millisecond)
@@ -454,6 +470,7 @@ type scen struct {
 	aLarger   bool // hub "a" (the one that sees first / is named first in disturbances) has the larger SKI
 	gapMs     int  // b becomes visible gapMs after a; 0 = the same moment
 	lateReg   bool // the hubs see each other first and are paired afterwards (RegisterRemoteSKI on a started hub queues the SKI and dials at once, without back-off)
+	denyWait  bool // no waiting for trust on either hub: until it registers the peer, a hub aborts the peer's requests (the aborted connection stays registered for 1 s)
 	dist      []string
 	waitFirst []bool // wait for quiescence before the disturbance (else a random short delay)
 	delays    []int
@@ -461,6 +478,17 @@ type scen struct {
 }
 
 var distKinds = []string{"disconnect_a", "disconnect_b", "cut", "restart_a", "restart_b", "mdns_both", "pending_cut", "pending_disconnect"}
+
+// directed scenarios beyond the single disturbances and the close window:
+//   deny:<gap_ms>   the hubs see each other, a registers b; b does not wait for trust (it aborts
+//                   a's requests, each aborted connection stays registered for a second) and
+//                   registers a <gap_ms> later - while such a connection is registered or between two
+//   samehub:<ms>    Shutdown and Start of BOTH hub objects (not new ones) while each has a delayed
+//                   dial pending whose timer expires during the <ms> the hubs are down
+var extraKinds = []string{
+	"deny:100", "deny:100", "deny:300", "deny:300", "deny:600", "deny:600", "deny:900", "deny:900", "deny:1500", "deny:1500",
+	"samehub:1300", "samehub:1300", "samehub:300", "samehub:300",
+}
 
 // compound disturbances around the 500 ms window of a graceful close (the close announce is
 // sent, the connection is closed and reported 500 ms later): the other hub disconnects too,
@@ -473,13 +501,14 @@ var windowKinds = []string{
 	"cut_disc:a:0", "cut_disc:b:50",
 }
 
-func isWindow(d string) bool { return strings.Contains(d, ":") }
+func isWindow(d string) bool { return strings.Contains(d, ":") && !strings.HasPrefix(d, "samehub:") }
 
 func plan(r *vh.Rng, n int) []scen {
 	var s []scen
 	gaps := []int{0, 0, 0, 30, 300, 1500}
 	singles := 12 + 2*len(distKinds)
 	windows := singles + len(windowKinds)
+	extras := windows + len(extraKinds)
 	all := append(append([]string(nil), distKinds...), windowKinds...)
 	for i := 0; i < n; i++ {
 		sc := scen{id: i, aLarger: i%2 == 0, gapMs: gaps[(i/2)%len(gaps)], lateReg: (i/2)%2 == 0, sub: r.Fork()}
@@ -489,6 +518,16 @@ func plan(r *vh.Rng, n int) []scen {
 			k = 0
 		case i < windows:
 			k = 1
+		case i < extras:
+			e := extraKinds[i-windows]
+			sc.aLarger = (i-windows)%2 == 0
+			if strings.HasPrefix(e, "deny:") {
+				sc.denyWait, sc.lateReg = true, true
+				sc.gapMs, _ = strconv.Atoi(e[5:])
+			} else {
+				sc.dist, sc.waitFirst, sc.delays = []string{e}, []bool{true}, []int{0}
+			}
+			k = 0
 		default:
 			k = 1 + r.Intn(3)
 		}
@@ -545,7 +584,7 @@ func runScenario(sc scen) (res result) {
 			return nil, err
 		}
 		return &side{name: name, crt: c, ski: skiOf(c), shipID: "ship-" + name, px: px,
-			app: &app{rx: map[string]api.ShipConnectionDataWriterInterface{}}}, nil
+			app: &app{rx: map[string]api.ShipConnectionDataWriterInterface{}, deny: sc.denyWait}}, nil
 	}
 	x, err := mk(fmt.Sprintf("%dx", sc.id))
 	if err != nil {
@@ -642,6 +681,24 @@ func runScenario(sc scen) (res result) {
 			}
 			continue
 		}
+		if strings.HasPrefix(d, "samehub:") {
+			down, _ := strconv.Atoi(d[8:])
+			// each hub has a delayed dial pending (a report that passed its connected-check
+			// earlier), then both hub objects are shut down and started again
+			a.hub.VerifCoordinate(b.ski, a.mdns.entry())
+			b.hub.VerifCoordinate(a.ski, b.mdns.entry())
+			okA, okB := true, true
+			both(func() { okA = a.shutdown() }, func() { okB = b.shutdown() })
+			if !okA || !okB {
+				res.notes = append(res.notes, "Shutdown did not return")
+			}
+			a.px.cutAll()
+			b.px.cutAll()
+			time.Sleep(time.Duration(down) * time.Millisecond)
+			both(func() { a.restartSame() }, func() { b.restartSame() })
+			both(func() { a.mdns.reportNow(true) }, func() { b.mdns.reportNow(true) })
+			continue
+		}
 		switch d {
 		case "disconnect_a":
 			a.hub.DisconnectSKI(b.ski, "verif")
@@ -672,7 +729,7 @@ func runScenario(sc scen) (res result) {
 			b.px.cutAll()
 			a.px.blocked.Store(false)
 			b.px.blocked.Store(false)
-			s.app = &app{rx: map[string]api.ShipConnectionDataWriterInterface{}}
+			s.app = &app{rx: map[string]api.ShipConnectionDataWriterInterface{}, deny: sc.denyWait}
 			s.start()
 			// the restarted hub's browser finds the peer again, the peer sees the new announcement
 			both(func() { s.mdns.reportNow(true) }, func() { s.peer.mdns.reportNow(true) })
@@ -739,13 +796,16 @@ func main() {
 		}
 		sim := sc.gapMs == 0
 		for _, d := range sc.dist {
-			if d == "mdns_both" || d == "restart_a" || d == "restart_b" {
+			if d == "mdns_both" || d == "restart_a" || d == "restart_b" || strings.HasPrefix(d, "samehub:") {
 				sim = true
 			}
 		}
 		kinds := append([]string(nil), sc.dist...)
 		sort.Strings(kinds)
 		kind := "plain"
+		if sc.denyWait {
+			kind = "deny_wait"
+		}
 		if len(sc.dist) > 0 {
 			kind = strings.SplitN(sc.dist[len(sc.dist)-1], ":", 2)[0]
 		}
@@ -758,9 +818,9 @@ func main() {
 		w.Put(vh.Case{
 			Coq:        fmt.Sprintf("CSys %s %s", vh.B(sim), res.q.coq()),
 			Nontrivial: true,
-			Key:        fmt.Sprintf("sys|%v|%d|%v|%v|%v", sc.aLarger, sc.gapMs, sc.lateReg, sc.dist, sc.waitFirst),
+			Key:        fmt.Sprintf("sys|%v|%d|%v|%v|%v|%v", sc.aLarger, sc.gapMs, sc.lateReg, sc.dist, sc.waitFirst, sc.denyWait),
 			Kind:       "sys_" + kind,
-			Sample: map[string]any{"a_has_larger_ski": sc.aLarger, "gap_ms": sc.gapMs, "paired_after_visible": sc.lateReg, "disturbances": sc.dist,
+			Sample: map[string]any{"a_has_larger_ski": sc.aLarger, "gap_ms": sc.gapMs, "paired_after_visible": sc.lateReg, "no_waiting_for_trust": sc.denyWait, "disturbances": sc.dist,
 				"wait_before": sc.waitFirst, "simultaneous": sim,
 				"observed": map[string]any{"tcp": res.q.tcp, "reg_a": res.q.regA, "reg_b": res.q.regB, "same": res.q.same,
 					"dead_a": res.q.deadA, "dead_b": res.q.deadB, "complete_a": res.q.cplA, "complete_b": res.q.cplB,
